@@ -461,6 +461,49 @@ def enum_sqlstates(tier: str):
                 yield {"type": "dyn:DbError", "args": [code, f"[{code}] [Microsoft][ODBC] failed (0)"], "classifiers": ["sqlstate", "pyodbc"]}
 
 
+def run_atheris(tier: str, seed: int, shard) -> dict:
+    import os
+    import re
+    import shutil
+    import subprocess
+
+    from ..runner import ROOT
+
+    sh, nsh = shard
+    runs = 120_000 if tier == "quick" else 3_000_000
+    work = ROOT / ".work" / "C19" / f"atheris-{sh}"
+    if work.exists():
+        shutil.rmtree(work)
+    corpus = work / "corpus"
+    corpus.mkdir(parents=True)
+    seeded = sh % 2 == 0
+    if seeded:
+        for i, t in enumerate([b"\x00\x00[40001] deadlock", b"\x00\x01HYT00", b"\x00\x00SQLSTATE 08S01 link failure", b"\x01\x0028000", b"\x00\x02x"]):
+            (corpus / f"seed{i}").write_bytes(t)
+    cmd = [sys.executable, str(ROOT / "fuzz" / "c19_target.py"), f"-runs={runs}", f"-seed={seed * 100 + sh + 1}", "-max_len=64", f"-artifact_prefix={work}/crash-", "-print_final_stats=1", str(corpus)]
+    r = subprocess.run(cmd, capture_output=True, text=True, env=dict(os.environ), timeout=3600)
+    text = r.stdout + r.stderr
+    m = re.findall(r"stat::number_of_executed_units:\s*(\d+)", text)
+    execs = int(m[-1]) if m else 0
+    m = re.findall(r"cov: (\d+)", text)
+    cov = int(m[-1]) if m else 0
+    out = dict(evaluations=execs, cases=execs, nontrivial=[], classes={f"atheris-{'seeded' if seeded else 'empty'}-corpus": execs}, samples=[], failures=[], excluded={}, errors=[])
+    out["extra"] = {"shard": sh, "corpus": "seeded" if seeded else "empty", "execs": execs, "coverage_edges": cov, "corpus_files": len(list(corpus.iterdir()))}
+    for i, f in enumerate(sorted(corpus.iterdir())):
+        out["nontrivial"].append(["atheris", sh, i])
+        if len(out["samples"]) < 2:
+            out["samples"].append({"atheris_corpus_entry": f.read_bytes()[:48].decode("latin-1")})
+    crashes = sorted(work.glob("crash-*"))
+    if crashes:
+        data = crashes[0].read_bytes()
+        msg = next((ln for ln in text.splitlines() if "C19-ORACLE" in ln), text[-300:])
+        sig = "C19:atheris:" + (msg.split("C19-ORACLE:", 1)[1].split(":", 1)[0].strip() if "C19-ORACLE:" in msg else "crash")
+        out["failures"].append((sig, {"type": "dyn:DbError", "args": [data[2:].decode("utf-8", "surrogateescape")]}, msg[:300], False))
+    elif r.returncode != 0 and "Done" not in text:
+        out["errors"].append("atheris run failed: " + text[-600:])
+    return out
+
+
 PROP = Property(
     id="C19",
     level="exploration",
@@ -474,7 +517,8 @@ PROP = Property(
         "is invariant under class renaming; optional-library classifiers equal default_classifier with their library made "
         "unimportable. Exhaustive: every int in [-50,1100] as status/code/status_code/args x 10 exception types x 5 "
         "classifiers; every 5-char SQLSTATE over the alphabet 01248HYTPS (all 100000 in thorough, documented prefixes in "
-        "quick) as attribute and embedded in message strings. Non-trivial = exception carrying >= 2 competing signals or a "
+        "quick) as attribute and embedded in message strings; Atheris (coverage-guided) campaigns feed arbitrary text as "
+        "args[0] / sqlstate through the same oracle from seeded and empty corpora. Non-trivial = exception carrying >= 2 competing signals or a "
         "hostile value."
     ),
     streams=[
@@ -482,5 +526,6 @@ PROP = Property(
         Stream("int_table", check_case, enum=enum_ints, quick=1, thorough=1, exhaustive=True),
         Stream("sqlstate_codes", check_case, enum=enum_sqlstates, quick=1, thorough=1, exhaustive=True),
         Stream("optional_absent", check_optional, strategy=exc_case(), quick=6000, thorough=100000),
+        Stream("atheris", check_case, custom=run_atheris, quick=1, thorough=1, shards=4),
     ],
 )
